@@ -341,7 +341,7 @@ def replay(pid, path, timeout=300):
 
 
 def finish(pid, tier, seed, level, merged, t0, *, rule, explanation, bounds, assumptions,
-           stubs=(), regimes=(), exhaustive=False, extra_cov=None, technique=''):
+           stubs=(), regimes=(), exhaustive=False, extra_cov=None, technique='', allowed_unmodelled=()):
     """replay + known-finding triage + evidence + exit code"""
     known = load_known(pid)
     lines = []
@@ -402,6 +402,12 @@ def finish(pid, tier, seed, level, merged, t0, *, rule, explanation, bounds, ass
         code = EXIT_HARNESS
     if merged['inconclusive'] and code == EXIT_OK:
         code = EXIT_HARNESS
+    # A case the torch model has no reading for is not-applicable, never a pass.  On the tree the checks were built against no case is
+    # unmodelled (apart from the kinds a check declares); if the code under test starts using something the model lacks, the run says so
+    # instead of reporting that the property held on what is left.
+    unexpected_unmodelled = [u for u in merged['unmodelled'] if not any(a in str(u.get('why', '')) for a in allowed_unmodelled)]
+    if unexpected_unmodelled and code == EXIT_OK:
+        code = EXIT_HARNESS
     st = merged['stats']
     cov = {
         'evaluations': merged['evaluations'],
@@ -416,6 +422,7 @@ def finish(pid, tier, seed, level, merged, t0, *, rule, explanation, bounds, ass
         'path_oracle_checks': merged['checks'],
         'inconclusive': len(merged['inconclusive']),
         'unmodelled_cases': len(merged['unmodelled']),
+        'unmodelled_unexpected': len(unexpected_unmodelled),
         'unmodelled_samples': merged['unmodelled'][:5],
         'paths': int(st.get('paths', 0)),
         'solver_queries': int(st.get('queries', 0)),
@@ -457,6 +464,8 @@ def finish(pid, tier, seed, level, merged, t0, *, rule, explanation, bounds, ass
               f'{json.dumps(nonrepro[0], default=str)[:1500]}', file=sys.stderr)
     if merged['inconclusive']:
         print(f"INCONCLUSIVE: {len(merged['inconclusive'])} obligations: {merged['inconclusive'][:2]}", file=sys.stderr)
+    if unexpected_unmodelled:
+        print(f"UNMODELLED: {len(unexpected_unmodelled)} case(s) use something the torch model has no reading for (not decided, exit 3): {unexpected_unmodelled[:2]}", file=sys.stderr)
     print(f"{pid} {tier}: cases={merged['evaluations']} distinct={len(merged['nontrivial'])} "
           f"obligations={cov['obligations']} discharged={cov['discharged']} paths={cov['paths']} "
           f"confirmed_violations={confirmed} known={len(seen_sig)} wall={ev['wall_s']}s exit={code}")
